@@ -4,7 +4,7 @@ CFG = dict(
     gen=[dict(tool="facts", mode="c02.guards", out="MeshGuards.lean")],
     modules=["PolyVerif.Props.C02", "PolyVerif.Props.C02Delaunay", "PolyVerif.Props.C02More", "PolyVerif.Props.C02Guards"],
     theorems=[# Props/C02Guards.lean (engine F: every panic of modeling/mesh.go and topology.go with its conditions, regenerated)
-              "PolyVerif.C02.mesh_guards_from_source", "PolyVerif.C02.mesh_guards_count",
+              "PolyVerif.C02.mesh_guards_from_source", "PolyVerif.C02.mesh_guards_count", "PolyVerif.C02.topologies_from_source", "PolyVerif.C02.indexSize_from_source",
               "prim_wf", "uvSphere_wf", "uvSphereUnwelded_wf", "hemisphere_wf", "circle_wf", "cone_wf", "cylinder_wf", "cylinder_nocaps_wf",
               "extrusions_total", "extrudeShape_wf", "screw_wf", "extrudeLine_wf", "extrudePolygon_wf", "marchBlock_wf", "march_wf", "quad_wf", "cube_wf", "cubeUnwelded_wf",
               "unweld_wf", "removeUnreferenced_wf", "toPointCloud_wf", "flip_wf", "setIndices_wf",
